@@ -283,15 +283,19 @@ class ModelSession:
         raise S.NotSupported(f"statement {type(stmt).__name__}")
 
     def _select_result(self, stmt: Select, rel: list[tuple[Any, dict[str, tuple[Any, Any]]]]) -> Any:
-        descs = stmt.column_descriptions
-        single_entity = len(descs) == 1 and descs[0].get("entity") is not None and descs[0]["expr"] is descs[0]["entity"]
-        if single_entity and descs[0]["entity"] is NodeModel:
+        # (stmt.column_descriptions would compile ORM state; under CrossHair that trips over patched sets)
+        entity = None
+        raw = list(stmt._raw_columns)
+        if len(raw) == 1 and isinstance(raw[0], sa.Table):
+            pe = raw[0]._annotations.get("parententity")
+            entity = getattr(pe, "class_", None)
+        if entity is NodeModel:
             objs = []
             for _g, row in rel:
                 d = {c: (None if row[c][1] else row[c][0]) for c in NODE_COLS}
                 objs.append((ModelNode(self.store, d),))
             return _Res(["NodeModel"], objs, single=True)
-        if single_entity and descs[0]["entity"] is JobHash:
+        if entity is JobHash:
             objs = [(ModelJobHash({c: (None if row[c][1] else row[c][0]) for c in ("job_id", "job_name", "job_hash")}),)
                     for _g, row in rel]
             return _Res(["JobHash"], objs, single=True)
